@@ -15,6 +15,7 @@ import copy
 import logging
 import os
 import pickle
+import re
 import sys
 import unicodedata
 import warnings
@@ -448,8 +449,7 @@ def run_impl(case):
                 if bad:
                     break
             lits = [x for x in s1 if isinstance(x, Literal)]
-            strict = all((a == b) or ((a < b) != (b < a)) for a in lits for b in lits)
-            same_classes = len({type(x) for x in s1 if not isinstance(x, Literal) and kind_of(x) == "iri"}) <= 1
+            strict = _try(lambda: all((a == b) or ((a < b) != (b < a)) for a in lits for b in lits)) is True
             n1 = [x for x in s1 if not isinstance(x, Literal)]
             n2 = [x for x in s2 if not isinstance(x, Literal)]
             if len(n1) != len(n2) or any(not _same(x, y) for x, y in zip(n1, n2)):
@@ -457,7 +457,6 @@ def run_impl(case):
             elif strict and (len(s1) != len(s2) or any(not (x == y) for x, y in zip(s1, s2))):
                 V("sort-repro", f"two shuffles of the same terms sort differently: {s1!r} vs {s2!r}")
             stats["sort_strict_lits"] = stats.get("sort_strict_lits", 0) + int(strict and len(lits) > 1)
-            del same_classes
 
     # ---------------- per term: pickling, copying, n3 text
     np_ = NodePickler()
@@ -737,7 +736,62 @@ def shrink(case):
         yield {**case, "p2": sorted(case["p2"], reverse=True)}
 
 
-MATCHERS = {}
+# ------------------------------------------------------------------ known findings: narrow matchers
+
+_U_ESC = re.compile(r"\\[uU][0-9A-Fa-f]{4}")
+_ORDER_TAGS = {"order-eq", "order-asym", "order-exc"}
+_SORT_TAGS = {"sort-exc", "sort-repro"}
+
+
+def _lt_cycle(lits):
+    def lt(a, b):
+        r = _try(lambda: a < b)
+        return r is True
+    for a in lits:
+        for b in lits:
+            if a is not b and lt(a, b):
+                for c in lits:
+                    if c is not a and c is not b and lt(b, c) and lt(c, a):
+                        return True
+    return False
+
+
+def _explain(case, result):
+    """for every violation the id of the listed finding that accounts for it, or None"""
+    ts = _build_all(case)
+    lits = [t for t in ts if isinstance(t, Literal)]
+    nan_lit = any(_is_nan_lit(t) for t in lits)
+    out = []
+    for v, idx in zip(result["viol"], result.get("involved") or [[]] * len(result["viol"])):
+        tag = v.split(":")[0]
+        inv = [ts[i] for i in idx if i < len(ts) and ts[i] is not None]
+        if tag == "n3-norm":
+            out.append("K1")   # the oracle itself checked that what came back is the normalised literal
+        elif tag == "n3-sparql" and inv and all(isinstance(t, Literal) and _U_ESC.search(str(t)) for t in inv):
+            out.append("K2")
+        elif tag == "n3-sparql" and inv and all(isinstance(t, Literal) and _infnan(t) for t in inv) and "raised" not in v:
+            out.append("K5")
+        elif tag in _ORDER_TAGS and any(_is_nan_lit(t) for t in inv):
+            out.append("K3")
+        elif tag in _SORT_TAGS and nan_lit:
+            out.append("K3")
+        elif tag == "sort-repro" and _lt_cycle(lits):
+            out.append("K4")
+        else:
+            out.append(None)
+    return out
+
+
+def _matcher(kid):
+    def m(case, result):
+        ex = _explain(case, result)
+        return bool(ex) and all(e is not None for e in ex) and kid in ex
+    return m
+
+
+MATCHERS = {"text_reader_normalises": _matcher("K1"), "sparql_codepoint_escape_in_string": _matcher("K2"),
+            "nan_valued_literal_order": _matcher("K3"), "cross_datatype_order_cycle": _matcher("K4"),
+            "inf_nan_respelled_in_text": _matcher("K5")}
 
 
 # ------------------------------------------------------------------ regenerated tables (source → Lean)
